@@ -1326,16 +1326,16 @@ Proof.
     eapply (wnode_mouse _ Hov); eauto.
 Qed.
 
-Theorem mouse_route_unique : forall w s p q col row focus,
+Theorem mouse_route_unique : forall w s p q col row,
   fits w s = true -> top_not_pack_overlay w = true ->
   In p (place w s) -> p_bg p = false -> In q (place w s) -> p_bg q = false ->
   in_rect (p_x p) (p_y p) (fst (p_size p)) (crows (child_info w (p_idx p)) (p_size p)) col row ->
   in_rect (p_x q) (p_y q) (fst (p_size q)) (crows (child_info w (p_idx q)) (p_size q)) col row ->
   p_idx p = p_idx q /\ p_size p = p_size q /\ p_x p = p_x q /\ p_y p = p_y q.
 Proof.
-  intros w s p q col row focus Hf Hov Hp Hpb Hq Hqb Hip Hiq.
-  destruct (mouse_route_hits_child w s p col row focus Hf Hov Hp Hpb Hip) as [f1 E1].
-  destruct (mouse_route_hits_child w s q col row focus Hf Hov Hq Hqb Hiq) as [f2 E2].
+  intros w s p q col row Hf Hov Hp Hpb Hq Hqb Hip Hiq.
+  destruct (mouse_route_hits_child w s p col row true Hf Hov Hp Hpb Hip) as [f1 E1].
+  destruct (mouse_route_hits_child w s q col row true Hf Hov Hq Hqb Hiq) as [f2 E2].
   rewrite E1 in E2. inversion E2. repeat split; auto; lia.
 Qed.
 
